@@ -187,6 +187,19 @@ class Universe:
             for q in new:
                 m.t[q] = "d"
             rec["new"] = new
+        elif kind == "burst":
+            # nested creation burst issued back to back as ONE operation: directories and files inside them
+            top, items = op[1], op[2]
+            rec["new"] = []
+            for rel, k in items:
+                q = top if rel == "" else top + "/" + rel
+                if k == "d":
+                    os.mkdir(A(q))
+                else:
+                    fd = os.open(A(q), os.O_CREAT | os.O_EXCL | os.O_WRONLY, 0o644)
+                    os.close(fd)
+                m.t[q] = k
+                rec["new"].append((q, k))
         elif kind == "rmdir":
             p = op[1]
             os.rmdir(A(p))
@@ -249,6 +262,10 @@ def op_footprint(u: Universe, op):
         parts = op[1].split("/")
         new = ["/".join(parts[:i]) for i in range(1, len(parts) + 1) if "/".join(parts[:i]) not in m.t]
         return new[:1], new, new
+    if k == "burst":
+        top, items = op[1], op[2]
+        new = [top if rel == "" else top + "/" + rel for rel, _ in items]
+        return [top], new, [q for q, (rel, kk) in zip(new, items) if kk == "d"]
     if k in ("write", "chmod"):
         return [op[1]], [], []
     if k == "unlink":
@@ -303,6 +320,26 @@ class OpGen:
                 if q.count("/") - root.count("/") <= u.max_depth and r.random() < 0.5:
                     q2 = q + "/" + r.choice(u.names)
                     c.append((w.get("makedirs", 2), ("makedirs", q2 if q2.count("/") - root.count("/") <= u.max_depth and r.random() < 0.4 else q)))
+        # nested creation burst with files inside (mkdir -p x/y; touch x/f x/y/g ... back to back)
+        par = r.choice(shallow) if shallow else root
+        top = fresh(par)
+        if top not in m.t and top.count("/") - root.count("/") <= 1 and w.get("burst", 1.5) > 0:
+            items = [("", "d")]
+            dirs_in = [""]
+            for _ in range(r.randint(2, 6)):
+                d = r.choice(dirs_in)
+                nm = r.choice(u.names)
+                rel = nm if d == "" else d + "/" + nm
+                if any(rel == x for x, _ in items):
+                    continue
+                depth = top.count("/") - root.count("/") + rel.count("/") + 1
+                if depth > u.max_depth:
+                    continue
+                kk = "d" if (r.random() < 0.45 and depth < u.max_depth) else "f"
+                items.append((rel, kk))
+                if kk == "d":
+                    dirs_in.append(rel)
+            c.append((w.get("burst", 1.5), ("burst", top, items)))
         if files:
             f = r.choice(files)
             c.append((w.get("write", 2), ("write", f)))
